@@ -22,6 +22,9 @@ FAULTS = {
     "429": (429, "TooManyRequestsException", "slow down"),
     "4xx": (400, "ResourceConflictException", "conflict"),
     "token": (400, "InvalidParameterValueException", "Invalid Checkpoint Token: stale"),
+    # retriable by the stated classification: only InvalidParameterValueException + this message is not
+    "4xx-tokenmsg": (400, "ValidationException", "Invalid Checkpoint Token: but another error code"),
+    "403": (403, "AccessDeniedException", "denied"),
 }
 
 _BRANCH_RE = re.compile(r"^(parallel-branch-|map-item-)(\d+)$")
@@ -387,6 +390,14 @@ class Backend:
             first, marker = self._paginate(rows, 2, 2)
         elif mode == 3:
             first, marker = self._paginate(rows, 0, 2)
+        elif mode == 5:
+            # EXECUTION row in the payload, then an EMPTY page that still carries a marker, then the rest
+            first, marker = self._paginate(rows, 1, 2)
+            if marker:
+                self.marker_n += 1
+                m = f"m{self.marker_n}"
+                self.pages[m] = ([], marker)
+                marker = m
         elif mode >= 10:
             first, marker = self._paginate(rows, mode - 10, 1000)
         else:
